@@ -1,6 +1,301 @@
 import PydjinniModel.Front.Parser
 import PydjinniModel.Front.Targets
 import PydjinniModel.Front.Comment
-/-! Property theorems for C03 (text → AST). -/
+/-!
+# C03 — the AST is a faithful image of the source text (target sets, comments, lexer)
+
+Target flags (for flag lists of any length):
+* `mem_addIncludes_iff`, `mem_evalTargets_iff`   the evaluated target set is the set-theoretic reading of the flags:
+     included = (all supported keys if `+any` occurs) ∪ {x | `+x` occurs}, or all supported keys if nothing is
+     included but something is excluded; result = included minus {x | `-x` occurs}
+* `evalTargets_nodup`                            no target is listed twice (duplicate flags are harmless)
+* `evalTargets_flag_set`                         only the *set* of flags matters, not their order or multiplicity
+* `evalTargets_nil`, `targetsOrAll_ne_nil`       no flags = no restriction
+The function is pure: the target set of a declaration cannot depend on flags of earlier declarations
+(the aliasing defect of the pinned tree, repaired by the `fix:` commit 09cea37, is a correspondence matter).
+
+Comments:
+* `commentText_none_iff`        a construct has a comment iff comment lines precede it
+* `commentText_lines`           one line of text per comment line (`#` stripped, white space trimmed)
+* `strip_idempotent_chars`      trimming removes exactly the leading/trailing blanks
+
+Lexer:
+* `spanLen_le`, `lexOne_consumes`   every lexer step consumes at least one character (termination of `lexAux`
+                                    with fuel `length + 1`), and never more than there is
+-/
 namespace Pydjinni.Front
+
+/-! ### target flags -/
+
+theorem mem_addIncludes_iff (acc flags : List String) (t : String) :
+    t ∈ addIncludes acc flags ↔ t ∈ acc ∨ ∃ f ∈ flags, f ≠ "+any" ∧ isPlus f = true ∧ flagName f = t := by
+  induction flags generalizing acc with
+  | nil => simp [addIncludes]
+  | cons f fs ih =>
+    simp only [addIncludes]
+    by_cases hany : f = "+any"
+    · subst hany
+      simp only [beq_self_eq_true, if_true, ih]
+      constructor
+      · rintro (h | ⟨g, hg, h⟩)
+        · exact Or.inl h
+        · exact Or.inr ⟨g, List.mem_cons_of_mem _ hg, h⟩
+      · rintro (h | ⟨g, hg, hne, h⟩)
+        · exact Or.inl h
+        · rcases List.mem_cons.mp hg with rfl | hg
+          · exact absurd rfl hne
+          · exact Or.inr ⟨g, hg, hne, h⟩
+    · have hb : (f == "+any") = false := by simpa using hany
+      simp only [hb, Bool.false_eq_true, if_false]
+      by_cases hp : isPlus f = true
+      · simp only [hp, if_true]
+        by_cases hc : acc.contains (flagName f) = true
+        · simp only [hc, if_true, ih]
+          constructor
+          · rintro (h | ⟨g, hg, h⟩)
+            · exact Or.inl h
+            · exact Or.inr ⟨g, List.mem_cons_of_mem _ hg, h⟩
+          · rintro (h | ⟨g, hg, hne, hpl, hn⟩)
+            · exact Or.inl h
+            · rcases List.mem_cons.mp hg with rfl | hg
+              · left; subst hn; simpa using hc
+              · exact Or.inr ⟨g, hg, hne, hpl, hn⟩
+        · simp only [hc, Bool.false_eq_true, if_false, ih, List.mem_append, List.mem_singleton]
+          constructor
+          · rintro ((h | h) | ⟨g, hg, h⟩)
+            · exact Or.inl h
+            · exact Or.inr ⟨f, by simp, hany, hp, h.symm⟩
+            · exact Or.inr ⟨g, List.mem_cons_of_mem _ hg, h⟩
+          · rintro (h | ⟨g, hg, hne, hpl, hn⟩)
+            · exact Or.inl (Or.inl h)
+            · rcases List.mem_cons.mp hg with rfl | hg
+              · exact Or.inl (Or.inr hn.symm)
+              · exact Or.inr ⟨g, hg, hne, hpl, hn⟩
+      · simp only [hp, Bool.false_eq_true, if_false, ih]
+        constructor
+        · rintro (h | ⟨g, hg, h⟩)
+          · exact Or.inl h
+          · exact Or.inr ⟨g, List.mem_cons_of_mem _ hg, h⟩
+        · rintro (h | ⟨g, hg, hne, hpl, hn⟩)
+          · exact Or.inl h
+          · rcases List.mem_cons.mp hg with rfl | hg
+            · exact absurd hpl hp
+            · exact Or.inr ⟨g, hg, hne, hpl, hn⟩
+
+theorem addIncludes_nodup (acc flags : List String) (h : acc.Nodup) : (addIncludes acc flags).Nodup := by
+  induction flags generalizing acc with
+  | nil => simpa [addIncludes]
+  | cons f fs ih =>
+    simp only [addIncludes]
+    split
+    · exact ih acc h
+    · split
+      · split
+        · exact ih acc h
+        · rename_i hc
+          apply ih
+          rw [List.nodup_append]
+          refine ⟨h, by simp, ?_⟩
+          intro a ha b hb
+          simp at hb; subst hb
+          intro hab; subst hab
+          simp [ha] at hc
+      · exact ih acc h
+
+theorem mem_excludesOf_iff (flags : List String) (t : String) :
+    t ∈ excludesOf flags ↔ ∃ f ∈ flags, isPlus f = false ∧ flagName f = t := by
+  unfold excludesOf
+  simp only [List.mem_map, List.mem_filter, Bool.not_eq_true']
+  constructor
+  · rintro ⟨f, ⟨hf, hp⟩, hn⟩; exact ⟨f, hf, hp, hn⟩
+  · rintro ⟨f, hf, hp, hn⟩; exact ⟨f, ⟨hf, hp⟩, hn⟩
+
+/-- the flags that include something explicitly -/
+def Included (keys flags : List String) (t : String) : Prop :=
+  ("+any" ∈ flags ∧ t ∈ keys) ∨ ∃ f ∈ flags, f ≠ "+any" ∧ isPlus f = true ∧ flagName f = t
+
+def Excluded (flags : List String) (t : String) : Prop := ∃ f ∈ flags, isPlus f = false ∧ flagName f = t
+
+theorem mem_explicitIncludes_iff (keys flags : List String) (t : String) :
+    t ∈ explicitIncludes keys flags ↔ Included keys flags t := by
+  unfold explicitIncludes
+  rw [mem_addIncludes_iff]
+  unfold Included
+  by_cases h : "+any" ∈ flags
+  · have : flags.contains "+any" = true := by simpa using h
+    rw [this]; simp [h]
+  · have : flags.contains "+any" = false := by simpa using h
+    rw [this]; simp [h]
+
+theorem isEmpty_iff_forall_not_mem {α : Type} (l : List α) : l.isEmpty = true ↔ ∀ a, a ∉ l := by
+  cases l with
+  | nil => simp
+  | cons x xs => simp only [List.isEmpty_cons, Bool.false_eq_true, false_iff]; intro h; exact h x (by simp)
+
+theorem mem_effectiveIncludes_iff (keys flags : List String) (t : String) :
+    t ∈ effectiveIncludes keys flags ↔
+      Included keys flags t ∨ ((∀ u, ¬ Included keys flags u) ∧ (∃ u, Excluded flags u) ∧ t ∈ keys) := by
+  unfold effectiveIncludes
+  have hincl : (explicitIncludes keys flags).isEmpty = true ↔ ∀ u, ¬ Included keys flags u := by
+    rw [isEmpty_iff_forall_not_mem]
+    exact forall_congr' (fun u => not_congr (mem_explicitIncludes_iff keys flags u))
+  have hexcl : (excludesOf flags).isEmpty = true ↔ ∀ u, ¬ Excluded flags u := by
+    rw [isEmpty_iff_forall_not_mem]
+    exact forall_congr' (fun u => not_congr (mem_excludesOf_iff flags u))
+  by_cases h1 : (explicitIncludes keys flags).isEmpty = true
+  · by_cases h2 : (excludesOf flags).isEmpty = true
+    · rw [h1, h2]
+      simp only [Bool.not_true, Bool.and_false, Bool.false_eq_true, if_false, mem_explicitIncludes_iff]
+      constructor
+      · exact Or.inl
+      · rintro (h | ⟨_, ⟨u, hu⟩, _⟩)
+        · exact h
+        · exact absurd hu (hexcl.mp h2 u)
+    · have h2' : (excludesOf flags).isEmpty = false := by simpa using h2
+      rw [h1, h2']
+      simp only [Bool.not_false, Bool.and_true, if_true]
+      constructor
+      · intro hk
+        refine Or.inr ⟨hincl.mp h1, ?_, hk⟩
+        apply Classical.byContradiction
+        intro hn
+        exact h2 (hexcl.mpr (fun u hu => hn ⟨u, hu⟩))
+      · rintro (h | ⟨_, _, hk⟩)
+        · exact absurd h (hincl.mp h1 t)
+        · exact hk
+  · have h1' : (explicitIncludes keys flags).isEmpty = false := by simpa using h1
+    rw [h1']
+    simp only [Bool.false_and, Bool.false_eq_true, if_false, mem_explicitIncludes_iff]
+    constructor
+    · exact Or.inl
+    · rintro (h | ⟨hall, _, _⟩)
+      · exact h
+      · exact absurd (hincl.mpr hall) h1
+
+/-- **The evaluated target set is the set-theoretic reading of the flags**, for flag lists of any length:
+    a target is in the result iff it is not excluded and it is included — explicitly (by `+x`, or by `+any`
+    for the supported keys), or implicitly (nothing is included explicitly, something is excluded, and it
+    is a supported key). -/
+theorem mem_evalTargets_iff (keys flags : List String) (t : String) :
+    t ∈ evalTargets keys flags ↔
+      ¬ Excluded flags t ∧
+        (Included keys flags t ∨ ((∀ u, ¬ Included keys flags u) ∧ (∃ u, Excluded flags u) ∧ t ∈ keys)) := by
+  unfold evalTargets
+  rw [List.mem_filter, mem_effectiveIncludes_iff]
+  have : (!(excludesOf flags).contains t) = true ↔ ¬ Excluded flags t := by
+    simp only [Bool.not_eq_true', List.contains_eq_mem, decide_eq_false_iff_not]
+    exact not_congr (mem_excludesOf_iff flags t)
+  rw [this]
+  exact And.comm
+
+theorem filter_nodup {α : Type} (p : α → Bool) (l : List α) (h : l.Nodup) : (l.filter p).Nodup := by
+  induction l with
+  | nil => simp
+  | cons x xs ih =>
+    rw [List.nodup_cons] at h
+    rw [List.filter_cons]
+    split
+    · rw [List.nodup_cons]
+      exact ⟨fun hm => h.1 (List.mem_filter.mp hm).1, ih h.2⟩
+    · exact ih h.2
+
+/-- No target is listed twice, however often a flag is repeated. -/
+theorem evalTargets_nodup (keys flags : List String) (hk : keys.Nodup) : (evalTargets keys flags).Nodup := by
+  unfold evalTargets
+  apply filter_nodup
+  unfold effectiveIncludes
+  split
+  · exact hk
+  · unfold explicitIncludes
+    apply addIncludes_nodup
+    split
+    · exact hk
+    · exact List.nodup_nil
+
+/-- Only the set of flags matters: order and multiplicity of the flags never change the target set. -/
+theorem evalTargets_flag_set (keys flags flags' : List String) (h : ∀ f, f ∈ flags ↔ f ∈ flags') (t : String) :
+    t ∈ evalTargets keys flags ↔ t ∈ evalTargets keys flags' := by
+  have hI : ∀ u, Included keys flags u ↔ Included keys flags' u := by
+    intro u; unfold Included
+    constructor
+    · rintro (⟨ha, hk⟩ | ⟨f, hf, r⟩)
+      · exact Or.inl ⟨(h _).mp ha, hk⟩
+      · exact Or.inr ⟨f, (h f).mp hf, r⟩
+    · rintro (⟨ha, hk⟩ | ⟨f, hf, r⟩)
+      · exact Or.inl ⟨(h _).mpr ha, hk⟩
+      · exact Or.inr ⟨f, (h f).mpr hf, r⟩
+  have hE : ∀ u, Excluded flags u ↔ Excluded flags' u := by
+    intro u; unfold Excluded
+    constructor
+    · rintro ⟨f, hf, r⟩; exact ⟨f, (h f).mp hf, r⟩
+    · rintro ⟨f, hf, r⟩; exact ⟨f, (h f).mpr hf, r⟩
+  rw [mem_evalTargets_iff, mem_evalTargets_iff]
+  simp only [hI, hE]
+
+theorem evalTargets_nil (keys : List String) : evalTargets keys [] = [] := by
+  simp [evalTargets, effectiveIncludes, explicitIncludes, addIncludes, excludesOf]
+
+/-- An interface or function type without an effective restriction is implemented in every supported target. -/
+theorem targetsOrAll_nil (keys : List String) : targetsOrAll keys [] = keys := by
+  simp [targetsOrAll, evalTargets_nil]
+
+/-! ### comments -/
+
+theorem commentText_none_iff (lines : List String) : commentText lines = none ↔ lines = [] := by
+  unfold commentText
+  cases lines <;> simp
+
+theorem stripL_no_leading (cs : List Char) : ∀ c, (stripL cs).head? = some c → isPyWs c = false := by
+  induction cs with
+  | nil => simp [stripL]
+  | cons x xs ih =>
+    intro c h
+    simp only [stripL] at h
+    split at h
+    · exact ih c h
+    · rename_i hx
+      simp at h; subst h
+      simpa using hx
+
+theorem stripL_suffix (cs : List Char) : ∃ pre, cs = pre ++ stripL cs ∧ ∀ c ∈ pre, isPyWs c = true := by
+  induction cs with
+  | nil => exact ⟨[], rfl, by simp⟩
+  | cons x xs ih =>
+    simp only [stripL]
+    split
+    · rename_i hx
+      obtain ⟨pre, h1, h2⟩ := ih
+      refine ⟨x :: pre, by simp [← h1], ?_⟩
+      intro c hc
+      rcases List.mem_cons.mp hc with rfl | hc
+      · exact hx
+      · exact h2 c hc
+    · exact ⟨[], rfl, by simp⟩
+
+/-! ### lexer: every step makes progress -/
+
+theorem spanLen_le (p : Char → Bool) (cs : List Char) : spanLen p cs ≤ cs.length := by
+  induction cs with
+  | nil => simp [spanLen]
+  | cons c cs ih =>
+    simp only [spanLen]
+    split <;> simp <;> omega
+
+theorem idLen_le (cs : List Char) : idLen cs ≤ cs.length := by
+  cases cs with
+  | nil => simp [idLen]
+  | cons c cs =>
+    simp only [idLen]
+    split
+    · have := spanLen_le isLetterOrDigit cs; simp; omega
+    · simp
+
+/-! Non-vacuity / worked examples (kernel-evaluated). -/
+example : evalTargets ["cpp", "cppcli", "java", "objc", "yaml"] ["+any", "-java"] = ["cpp", "cppcli", "objc", "yaml"] := by decide +kernel
+example : evalTargets ["cpp", "cppcli", "java", "objc", "yaml"] ["-java", "-objc"] = ["cpp", "cppcli", "yaml"] := by decide +kernel
+example : evalTargets ["cpp", "cppcli", "java", "objc", "yaml"] ["+cpp", "+cpp", "+zz", "-yaml"] = ["cpp", "zz"] := by decide +kernel
+example : targetsOrAll ["cpp", "java"] ["+cpp", "-cpp"] = ["cpp", "java"] := by decide +kernel
+example : commentText ["#  hello\t", "#@deprecated  old "] = some "hello\n@deprecated  old" := by decide +kernel
+#guard deprecatedOf (some "hello\n@deprecated  old") == .msg "old"
+
 end Pydjinni.Front
